@@ -26,6 +26,7 @@
 #include <ompl/geometric/PathGeometric.h>
 
 #include <atomic>
+#include <sys/resource.h>
 #include <cmath>
 #include <memory>
 #include <unordered_set>
@@ -36,11 +37,31 @@ namespace world
     namespace og = ompl::geometric;
     using sim::Json;
 
+    // thrown by the validity checker when the case's simulator step budget is used up (inconclusive, never a verdict)
+    struct BudgetExhausted : std::exception
+    {
+        const char *what() const noexcept override
+        {
+            return "simulator step budget (validity calls) exhausted";
+        }
+    };
+
+    inline double cpuSeconds()
+    {
+        struct rusage ru;
+        getrusage(RUSAGE_SELF, &ru);
+        return ru.ru_utime.tv_sec + ru.ru_stime.tv_sec + (ru.ru_utime.tv_usec + ru.ru_stime.tv_usec) * 1e-6;
+    }
+
     // ---- state ledger ----------------------------------------------------------------------------------
     struct Ledger
     {
         std::unordered_set<const ob::State *> live;
         long allocs = 0, frees = 0, badFrees = 0;
+        // step budget while a solve is running: top-level distance() calls are counted, CPU time is polled
+        bool armed = false;
+        long distCalls = 0;
+        double cpuBudget = 1e9;
         std::atomic_flag lock = ATOMIC_FLAG_INIT;
         void onAlloc(const ob::State *s)
         {
@@ -88,6 +109,13 @@ namespace world
                 return;  // do not hand a non-live state to the real deallocator: the ledger reports it
             Base::freeState(s);
         }
+        double distance(const ob::State *a, const ob::State *b) const override
+        {
+            Ledger &l = ledger();
+            if (l.armed && (++l.distCalls & 0x3fff) == 0 && cpuSeconds() > l.cpuBudget)
+                throw BudgetExhausted();
+            return Base::distance(a, b);
+        }
     };
 
     // ---- obstacles -------------------------------------------------------------------------------------
@@ -105,6 +133,16 @@ namespace world
     public:
         Json desc;
         std::string space;  // rv | se2 | se3 | cmp (weighted compound R^2 x SO(2) x R^1) | rs (Reeds-Shepp) | dubins
+        enum Kind
+        {
+            RV,
+            SE2,
+            SE3,
+            CMP
+        } kind = RV;  // layout class of `space` (rs / dubins share SE2's)
+        bool curved = false;    // rs / dubins
+        long validBudget = -1;  // simulator step budget: validity calls allowed per case (<0: unlimited)
+        double cpuBudget = 1e9;  // CPU seconds of the case after which a running solve is abandoned (inconclusive)
         int dim = 2;        // total real dimension for rv
         int pdim = 2;       // positional dimensions the obstacles live in
         double lo = 0, hi = 10;
@@ -116,19 +154,19 @@ namespace world
 
         void pos(const ob::State *s, double *p) const
         {
-            if (space == "rv")
+            if (kind == RV)
             {
                 const auto *r = s->as<ob::RealVectorStateSpace::StateType>();
                 for (int i = 0; i < pdim; i++)
                     p[i] = r->values[i];
             }
-            else if (space == "se2" || space == "rs" || space == "dubins")
+            else if (kind == SE2)
             {
                 const auto *r = s->as<ob::SE2StateSpace::StateType>();
                 p[0] = r->getX();
                 p[1] = r->getY();
             }
-            else if (space == "se3")
+            else if (kind == SE3)
             {
                 const auto *r = s->as<ob::SE3StateSpace::StateType>();
                 p[0] = r->getX();
@@ -171,6 +209,12 @@ namespace world
         {
             double p[3];
             pos(s, p);
+            // curved spaces (Reeds-Shepp, Dubins): motions between in-bounds states can leave the bounds, so - as the
+            // library's documentation asks of users - the validity predicate includes the bounds there
+            if (curved)
+                for (int i = 0; i < 2; i++)
+                    if (p[i] < lo || p[i] > hi)
+                        return false;
             return validPos(p);
         }
         // distance from p to the nearest obstacle boundary (clearance), for clearance objectives / samplers
@@ -241,7 +285,9 @@ namespace world
         }
         bool isValid(const ob::State *s) const override
         {
-            w_->validCalls++;
+            long n = ++w_->validCalls;
+            if (w_->validBudget >= 0 && (n > w_->validBudget || ((n & 0xffff) == 0 && cpuSeconds() > w_->cpuBudget)))
+                throw BudgetExhausted();
             if (w_->onValidityCall)
                 w_->onValidityCall();
             return w_->valid(s);
@@ -315,6 +361,8 @@ namespace world
         auto w = std::make_shared<World>();
         w->desc = d;
         w->space = d.gets("space", "rv");
+        w->curved = w->space == "rs" || w->space == "dubins";
+        w->kind = w->space == "rv" ? World::RV : (w->space == "se3" ? World::SE3 : (w->space == "cmp" ? World::CMP : World::SE2));
         w->dim = (int)d.geti("dim", 2);
         w->lo = d.getd("lo", 0);
         w->hi = d.getd("hi", 10);
@@ -461,7 +509,8 @@ namespace world
     // the components of a compound); deliberately not a call to validSegmentCount()
     inline unsigned ownSegmentCount(const ob::StateSpace *sp, const ob::State *a, const ob::State *b)
     {
-        if (sp->isCompound())  // also Dubins / Reeds-Shepp: they inherit the compound rule
+        // (Reeds-Shepp / Dubins override validSegmentCount with the leaf rule on their own curve length)
+        if (sp->isCompound() && sp->getType() != ob::STATE_SPACE_REEDS_SHEPP && sp->getType() != ob::STATE_SPACE_DUBINS)
         {
             const auto *cs = sp->as<ob::CompoundStateSpace>();
             unsigned n = 0;
